@@ -556,6 +556,7 @@ class Check:
             "changed_functions": self.changed_functions(),
             "known_findings_seen": self.known_seen,
             "translator_problems": pr.translate_info.get("problems", []),
+            "translator_notes": pr.translate_info.get("notes", []),
         }
         cov.update({k: v for k, v in self.extra_cov.items() if k != "extra_evaluations"})
         ev = {
